@@ -321,18 +321,29 @@ numpy.array=_array; numpy.savez=_savez; numpy.load=_load
 import builtins as _bi
 
 
+RNG = {"tok": 12345, "log": []}      # the harness may set RNG["tok"] (what integers() returns, possibly symbolic)
+
+
 class _Rng:
+    def __init__(self, seed=None):
+        self.seed = seed
+        RNG["log"].append(("default_rng", seed, self))
+
     def integers(self, lo, hi=None):
-        return 12345
+        if hi is None:
+            lo, hi = 0, lo
+        RNG["log"].append(("integers", self, lo, hi, RNG["tok"]))
+        return RNG["tok"]
 
     def random(self, n):
+        RNG["log"].append(("random", self, n))
         return SArr((n,), float64, [0.5] * _ai(n))
 
 
 class _Random:
     @staticmethod
     def default_rng(seed=None):
-        return _Rng()
+        return _Rng(seed)
 
     @staticmethod
     def rand(n):
